@@ -1,4 +1,4 @@
-import Gmx.Lemmas.PerpLedger
+import Gmx.Lemmas.PerpValue
 import Gmx.Props.C12
 /-!
 # C08 — market token accounting is conserved and funding payouts stay backed
@@ -12,9 +12,9 @@ Proved here: the ledger step of an increase; conservation inside the collateral 
 payment routine; fee-state updates do not move the ledger; the packing of funding indices
 rounds the payer up and the receiver down, so one funding update never promises more than it
 charges; the literal clause "collected − claimed ≥ 0" is false (`claim_before_collect_witness`,
-known finding F-C08). NOT proved in Lean (checked by the harness oracle only): the ledger step
-of a decrease through all collateral-processor branches, and the history-level potential
-argument for the refined invariant (DESIGN Appendix E).
+known finding F-C08). Also proved: the ledger step of a decrease through EVERY collateral-processor
+branch and its lift to histories (`ledger_step_decrease`, `ledger_step`, `ledger_history`), which
+exposed a dust-level defect (F-C08b, `fee_dust_witness`).
 -/
 namespace Gmx.C08
 open Gmx Gmx.Perp Gmx.Lem
@@ -46,6 +46,131 @@ theorem pay_conserves {W : Nat} {x : PCtx} {s s1 : PState} {cost pc ps left : Na
     cases h
     obtain ⟨a, b, _, _⟩ := payAmounts_conserves hp
     exact ⟨a, b, rfl, rfl, rfl, rfl, rfl⟩
+
+/-- **ledger step of a decrease** through every collateral-processor branch (see
+`Lem.decrease_ledger`): holdings after + all outputs + funding fee collected = holdings before +
+fee dust; collected `≤` the funding fee and `=` it unless an insufficient funding payment is
+reported; the dust is worth less than one pnl-token unit and is zero when pnl and collateral
+tokens coincide (finding F-C08b). -/
+theorem ledger_step_decrease {W U : Nat} {m m' : Market} {c : PerpCfg} {pr : Prices} {p p' : Pos} {sd0 wd : Nat}
+    {fl : DecreaseFlags} {r : DecreaseReport} (h : decrease W U m c pr p sd0 wd fl = .ok (m', p', r)) :
+    ∃ paid dust, paid ≤ r.fees.fundAmount ∧ (r.fundingShort = false → paid = r.fees.fundAmount) ∧
+      (dust = 0 ∨ dust * (pr.collateral p.collLong).min < (pr.collateral p.isLong).min) ∧
+      (p.isLong = p.collLong → dust = 0) ∧
+      ∀ t, ledger m' t + tokAmt p.collLong t (r.output + r.holdOut + r.userOut + paid) +
+             tokAmt p.isLong t (r.secondary + r.holdSec + r.userSec) = ledger m t + tokAmt p.collLong t dust := by
+  obtain ⟨paid, dust, h1, h2, h3, h4⟩ := decrease_ledger h
+  refine ⟨paid, dust, h1, h2, h3, ?_, fun t => by simpa [tok_eq] using h4 t⟩
+  intro hs
+  rcases h3 with h0 | hlt
+  · exact h0
+  · rw [hs] at hlt
+    cases dust with
+    | zero => rfl
+    | succ n =>
+      exfalso
+      have : (pr.collateral p.collLong).min ≤ (n + 1) * (pr.collateral p.collLong).min := Nat.le_mul_of_pos_left _ (by omega)
+      omega
+
+/-- the fee dust is real: a long with short-token collateral closed at index price 99 with exactly
+50 collateral units missing for the 1 % fee: the remainder converts to `50·1/99 = 0` long tokens,
+the cost counts as paid and the pool / fee receiver are credited the full fee — accounted holdings
+of the short token grow by 50 units that nobody paid. Replayed on the implementation (F-C08b). -/
+theorem fee_dust_witness : dustOutcome = some (100000599999950, 100000600000000, 0, 0) := by rfl
+
+/-- flows of one operation of a history (`PSys.stepF`) balance the ledger. -/
+theorem ledger_step (W U : Nat) (c : PerpCfg) (s : PSys) (o : POp) :
+    ∃ paid dust : Bool → Nat, ∀ t,
+      ledger (s.stepF W U c o).1.m t + (s.stepF W U c o).2.out t + paid t
+        = ledger s.m t + (s.stepF W U c o).2.inn t + dust t ∧
+      paid t ≤ (s.stepF W U c o).2.fund t ∧
+      ((s.stepF W U c o).2.short = false → paid t = (s.stepF W U c o).2.fund t) ∧
+      ((s.stepF W U c o).2.mixed = false → dust t = 0) := by
+  have triv : ∀ s' : PSys, (∀ t, ledger s'.m t = ledger s.m t) →
+      ∃ paid dust : Bool → Nat, ∀ t, ledger s'.m t + ({} : Flow).out t + paid t = ledger s.m t + ({} : Flow).inn t + dust t ∧
+        paid t ≤ ({} : Flow).fund t ∧ (({} : Flow).short = false → paid t = ({} : Flow).fund t) ∧ (({} : Flow).mixed = false → dust t = 0) :=
+    fun s' hs => ⟨fun _ => 0, fun _ => 0, fun t => ⟨by simp [hs t], Nat.le_refl _, fun _ => rfl, fun _ => rfl⟩⟩
+  cases o with
+  | openPos il cl => simpa [PSys.stepF] using triv { s with ps := s.ps ++ [{ isLong := il, collLong := cl }] } (fun _ => rfl)
+  | market m' =>
+    simp only [PSys.stepF]
+    split
+    · rename_i hb
+      suffices hh : ∀ t, ledger m' t = ledger s.m t by simpa using triv { s with m := m' } hh
+      intro t
+      simp only [Bool.and_eq_true] at hb
+      have hl := hb.2
+      unfold sameLedgerB at hl
+      simp only [Bool.and_eq_true, beq_iff_eq] at hl
+      obtain ⟨⟨⟨⟨h1, h2⟩, h3⟩, h4⟩, h5⟩ := hl
+      unfold ledger; rw [h1, h2, h3, h4, h5]
+    · simpa using triv s (fun _ => rfl)
+  | inc i coll size pr =>
+    simp only [PSys.stepF]
+    split
+    · simpa using triv s (fun _ => rfl)
+    · rename_i p hget
+      split
+      · rename_i m' p' r hinc
+        obtain ⟨l1, l2⟩ := ledger_step_increase hinc
+        refine ⟨fun t => tokAmt p.collLong t r.fees.fundAmount, fun _ => 0, fun t => ⟨?_, Nat.le_refl _, fun _ => rfl, fun _ => rfl⟩⟩
+        simp only [tokAmt]
+        by_cases hc : p.collLong = t
+        · simp only [hc, if_true]; rw [← hc]; omega
+        · simp only [hc, if_false]
+          have : (!p.collLong) = t := by cases hp : p.collLong <;> cases t <;> simp_all
+          rw [← this]; omega
+      · simpa using triv s (fun _ => rfl)
+  | dec i size wd fl pr =>
+    simp only [PSys.stepF]
+    split
+    · simpa using triv s (fun _ => rfl)
+    · rename_i p hget
+      split
+      · rename_i m' p' r hdec
+        obtain ⟨paid, dust, h1, h2, _, h4, h5⟩ := ledger_step_decrease hdec
+        refine ⟨fun t => tokAmt p.collLong t paid, fun t => tokAmt p.collLong t dust, fun t => ⟨?_, ?_, ?_, ?_⟩⟩
+        · have := h5 t
+          simp only [tokAmt] at *
+          by_cases hc : p.collLong = t <;> by_cases hi : p.isLong = t <;> simp only [hc, hi, if_true, if_false] at * <;> omega
+        · simp only [tokAmt]; split <;> omega
+        · intro hs; simp only [tokAmt]; rw [h2 hs]
+        · intro hm
+          have : p.isLong = p.collLong := by simpa using hm
+          rw [h4 this]; simp [tokAmt]
+      · simpa using triv s (fun _ => rfl)
+
+/-- **ledger over histories**: after any sequence of position openings, increases, decreases
+(any flags, failing attempts included) and ledger-neutral market operations, per pool token:
+`holdings_final + Σ outputs + collected = holdings_initial + Σ inputs + dust`, where the funding
+collected is at most the funding fees charged — exactly them if no insufficient funding payment
+was reported — and the dust is zero if no decrease mixed pnl and collateral tokens. -/
+theorem ledger_history (W U : Nat) (c : PerpCfg) (ops : List POp) : ∀ s : PSys,
+    ∃ paid dust : Bool → Nat, ∀ t,
+      ledger (s.runF W U c ops).1.m t + (s.runF W U c ops).2.out t + paid t
+        = ledger s.m t + (s.runF W U c ops).2.inn t + dust t ∧
+      paid t ≤ (s.runF W U c ops).2.fund t ∧
+      ((s.runF W U c ops).2.short = false → paid t = (s.runF W U c ops).2.fund t) ∧
+      ((s.runF W U c ops).2.mixed = false → dust t = 0) := by
+  induction ops with
+  | nil =>
+    intro s
+    exact ⟨fun _ => 0, fun _ => 0, fun t => ⟨by simp [PSys.runF], Nat.le_refl _, fun _ => rfl, fun _ => rfl⟩⟩
+  | cons o os ih =>
+    intro s
+    obtain ⟨p1, d1, h1⟩ := ledger_step W U c s o
+    obtain ⟨p2, d2, h2⟩ := ih (s.stepF W U c o).1
+    refine ⟨fun t => p1 t + p2 t, fun t => d1 t + d2 t, fun t => ?_⟩
+    obtain ⟨a1, a2, a3, a4⟩ := h1 t
+    obtain ⟨b1, b2, b3, b4⟩ := h2 t
+    simp only [PSys.runF, Flow.add]
+    refine ⟨by omega, by omega, ?_, ?_⟩
+    · intro hs
+      simp only [Bool.or_eq_false_iff] at hs
+      rw [a3 hs.1, b3 hs.2]
+    · intro hm
+      simp only [Bool.or_eq_false_iff] at hm
+      rw [a4 hm.1, b4 hm.2]
 
 /-- fee-state updates (funding, borrowing) move no tokens. -/
 theorem fee_updates_keep_ledger {W U : Nat} {m m' : Market} {rc : RateCfg} {pr : Prices} (il : Bool) :
